@@ -170,16 +170,31 @@ fn call_group(c: &mut Child, seed: u64) {
                 RealOutcome::Panic(p) => c.rep.finding("set_handler|panic", || format!("set_handler({}, {:06x}) panicked: {}", vector, addr, p.msg), || replay.clone()),
             }
         } else {
-            // ---- any other call number must stop execution with an error
+            // ---- any other call number must stop execution with an error.  ER1 points to an argument
+            // block that is valid for BOTH services, so a number wrongly taken for 104 or 113 shows
+            // as a successful call (Ok / message / vector write) instead of failing on garbage
             let id = loop {
-                let x = match rng.below(3) {
-                    0 => *rng.pick(&[0u32, 1, 103, 105, 112, 114, 0xffff_ffff, 104 << 8, 0x0100_0068]),
+                let x = match rng.below(4) {
+                    0 => *rng.pick(&[0u32, 1, 103, 105, 112, 114, 0xffff_ffff, 104 << 8, 113 << 8, 104 << 16, 113 << 16, 104 << 24, 0x6800_0000, 0x7100_0000]),
+                    // aliases of the two valid numbers in the low byte / low word
+                    1 => *rng.pick(&[104u32, 113]) + ((1 + rng.below(0xffff) as u32) << 16),
+                    2 => *rng.pick(&[104u32, 113]) + ((1 + rng.below(0xff_ffff) as u32) << 8),
                     _ => rng.u32(),
                 };
                 if x != 104 && x != 113 {
                     break x;
                 }
             };
+            let argp = 0xffe900 + 4 * rng.below(32) as u32;
+            let buf = 0xffc200u32;
+            for (i, b) in b"alias".iter().enumerate() {
+                real_poke(&mut rig.cpu, buf + i as u32, *b);
+            }
+            // as write: {fd=1, buf, len=5}; as set_handler: {vector=1, address=buf}
+            poke32(&mut rig.cpu, argp, 1);
+            poke32(&mut rig.cpu, argp + 4, buf);
+            poke32(&mut rig.cpu, argp + 8, 5);
+            er[1] = argp;
             er[0] = id;
             rig.cpu.er = er;
             rig.cpu.verif_set_ccr(ccr);
